@@ -23,6 +23,6 @@ UNVERIFIED = [
     'SDK side (crates/programs): see C40',
 ]
 MANIFEST = dict(engine='kani',
-    technique='Kani/CBMC: write-one-key/read-every-key with frame on an arbitrary (all words symbolic) MarketConfig, all 66 keys by concrete unrolled loops; flags bit-exact; discriminant guard',
+    technique='Kani/CBMC: write-one-key/read-every-key with frame on an arbitrary (all words symbolic) MarketConfig, all 66 keys by concrete unrolled loops; flags bit-exact; discriminant guard; Store amount / factor / address keys: pointer identity with the named field on a fully symbolic store, writes through the string-keyed accessors change exactly their own word',
     text='Exhaustive over keys, symbolic over values and over the whole background config: writing v through key k is read back through k, every other key reads its old value, at most one storage word changes and never the flag word; each key owns its own slot; config flags and market flags likewise (bit-exact); key discriminants beyond the table are rejected. Store: every amount / factor / address key reads the field named after it, and a write through an amount or factor key changes exactly that word (claimable_time_window cannot be written).',
     note='Trusted: Kani/CBMC. Model-parameter accessors: see unverified clauses.')
